@@ -1725,6 +1725,113 @@ def gen_paramless_function(rnd):
     return '\n'.join(L) + '\n'
 
 
+def gen_deep_raise_function(rnd):
+    """an explicit raise that sits DEEPER in a try body (more statements / nesting levels before it) than the
+    fall-through path of the body is long, so that a breadth-first walk of the graph reaches the handlers, the finally
+    clause and the statements after the try before it reaches the raise; a variable is assigned on the raising path
+    and overwritten (or never bound) on the fall-through path -- the raise node is the only carrier of that
+    definition into the handler / finally / following statements, which read it and enter compound statements; the
+    try may sit in a loop whose later statements re-define the variables (definitions that reach the raise only on a
+    later wave of the fixed-point iteration)"""
+    k = [0]
+
+    def key():
+        k[0] += 1
+        return k[0]
+    v, u, w, t = rnd.sample(_progs.VARS, 4)
+    exc = rnd.sample(['E0', 'E1', 'E2'], 3)
+    L = ['def f(a, b, c):', '    %s = T(%d)' % (v, key()), '    %s = T(%d)' % (u, key())]
+    loop = rnd.choice(['none', 'none', 'while', 'for'])
+    ind = 1
+    if loop == 'while':
+        L.append('    while D(%d):' % key())
+        ind = 2
+    elif loop == 'for':
+        L.append('    for i%d in L(%d):' % (key(), key()))
+        ind = 2
+    p = '    ' * ind
+    L.append(p + 'try:')
+    q = p + '    '
+    if rnd.random() < 0.25:
+        L.append(q + 'T(%d, %s)' % (key(), u))
+    # the raising path: one to three nesting levels, two to five statements before the raise
+    depth = rnd.choice([1, 1, 2, 2, 3])
+    r = q
+    for lvl in range(depth):
+        L.append(r + ('if D(%d):' % key() if lvl == 0 or rnd.random() < 0.7 else 'while D(%d):' % key()))
+        r += '    '
+        if lvl < depth - 1 and rnd.random() < 0.4:
+            L.append(r + '%s = T(%d)' % (rnd.choice([u, t]), key()))
+    L.append(r + '%s = T(%d%s)' % (v, key(), rnd.choice(['', ', ' + v, ', a'])))
+    only_raising = rnd.random() < 0.6          # w is bound on the raising path only
+    filler = rnd.randint(1, 4)
+    for j in range(filler):
+        form = rnd.random()
+        if j == 0 and only_raising:
+            L.append(r + '%s = T(%d)' % (w, key()))
+        elif form < 0.4:
+            L.append(r + '%s = T(%d, %s)' % (t, key(), v))
+        elif form < 0.7:
+            L.append(r + 'T(%d, %s)' % (key(), u))
+        elif form < 0.85:
+            L += [r + 'if D(%d):' % key(), r + '    %s = T(%d)' % (t, key())]
+        else:
+            L.append(r + '%s = T(%d, %s)' % (v, key(), v))
+    L.append(r + 'raise %s()' % exc[0])
+    # the fall-through path: short, and it overwrites what the raising path assigned
+    if rnd.random() < 0.85:
+        L.append(q + '%s = T(%d)' % (v, key()))
+    if rnd.random() < 0.3:
+        L.append(q + '%s = T(%d, %s)' % (u, key(), v))
+    second = rnd.random() < 0.25                # a second, shallow raise guarded by the same handlers
+    if second:
+        L += [q + 'if D(%d):' % key(), q + '    raise %s()' % exc[0]]
+    # handlers
+    htype = exc[0] if rnd.random() < 0.7 else rnd.choice(['(%s, %s)' % (exc[0], exc[1]), 'Exception'])
+    if rnd.random() < 0.2:
+        L += [p + 'except %s:' % exc[2], q + '%s = T(%d)' % (u, key())]
+    L.append(p + 'except %s:' % htype)
+    hform = rnd.random()
+    ret_in_handler = False
+    if hform < 0.3:
+        L.append(q + '%s = T(%d, %s)' % (u, key(), v))
+    elif hform < 0.55:
+        L += [q + 'if D(%d):' % key(), q + '    %s = T(%d, %s)' % (rnd.choice([u, w]), key(), v)]
+    elif hform < 0.7:
+        L += [q + 'while D(%d, %s):' % (key(), v), q + '    %s = T(%d)' % (rnd.choice([v, w]), key())]
+    elif hform < 0.85:
+        L += [q + 'T(%d, %s)' % (key(), v), q + 'if D(%d):' % key(), q + '    %s = T(%d)' % (w, key())]
+    else:
+        L.append(q + 'return T(%d, %s)' % (key(), v))
+        ret_in_handler = True
+    jump_in_handler = ret_in_handler
+    if loop != 'none' and not ret_in_handler and rnd.random() < 0.3:
+        L.append(q + rnd.choice(['break', 'continue']))
+        jump_in_handler = True
+    if rnd.random() < 0.2:
+        L += [p + 'else:', q + '%s = T(%d, %s)' % (t, key(), v)]
+    # (a jump in a handler of a try with finally is C05's guard: no finally then)
+    if not jump_in_handler and rnd.random() < 0.35:
+        L += [p + 'finally:', q + '%s = T(%d, %s)' % (u, key(), v)]
+        if rnd.random() < 0.5:
+            L += [q + 'if D(%d):' % key(), q + '    %s = T(%d)' % (w, key())]
+    # after the try
+    aform = rnd.random()
+    if aform < 0.35:
+        L.append(p + '%s = T(%d, %s)' % (u, key(), v))
+    elif aform < 0.6:
+        L += [p + 'if D(%d):' % key(), p + '    %s = T(%d, %s)' % (w, key(), v)]
+    elif aform < 0.75:
+        L += [p + 'while D(%d):' % key(), p + '    %s = T(%d, %s)' % (u, key(), v)]
+    if loop != 'none':
+        if rnd.random() < 0.6:
+            L.append(p + '%s = T(%d%s)' % (v, key(), rnd.choice(['', ', ' + v])))      # loop-carried definition
+        if rnd.random() < 0.3:
+            L.append(p + '%s = T(%d)' % (u, key()))
+    L.append('    return T(%d, %s, %s)' % (key(), v, u))
+    return '\n'.join(L) + '\n'
+
+
 def gen_sibling_writer_function(rnd):
     """Liveness INSIDE a nested function: a local function (the writer, possibly one level further down) assigns a
     variable of the enclosing function it declares nonlocal and then, in the same activation, the value is consumed only by ANOTHER local function of the enclosing function: called by name,
@@ -2198,6 +2305,11 @@ def check_property(run, kind, generate):
                 'declaring nonlocal, called at later points, lambdas stored and called later, raises reaching outer handlers, jumps in try-else under finally, parameterless functions, aliased / stored in a list / re-defined under the same name / called through sibling closures and two-hop chains after if/while/for statements assigning the captured variable; reads only of definitely bound names, plus a stream with maybe-unbound '
                 'reads) x decision vectors driving every test / trip count (0..3) / handler; corpus first; non-trivial = program with a '
                 'loop, try or local function; distinct by source text')
+    if kind == 'rd':
+        run.rule += ('; C06 also: a stream of its own with explicit raises that sit deeper in a try body (more statements / '
+                     'nesting levels before them) than the fall-through path of the body is long, after assigning a variable the '
+                     'fall-through path overwrites or never binds, read in the handlers / finally clause / after the try and '
+                     'at the entry of compound statements there, the try optionally in a loop that re-defines the variables')
     if kind == 'lv':
         run.rule += ('; C07 also: every activation of a nested function is judged against that function\'s own graph (value written '
                      'in the activation and read later in it by the function itself, by functions nested in it or by local functions '
@@ -2215,8 +2327,9 @@ def check_property(run, kind, generate):
     corpus = load_corpus(pid)
     # C07 only: a stream of its own (own random source, after the shared streams, so that those stay what they were)
     # for liveness inside nested functions
-    nextra = (40 if quick else 400) if kind == 'lv' else 0
-    rnd_extra = random.Random(run.seed * 7919 + 1000007)
+    # C06 only, likewise: raises that sit deeper in a try body than the body's fall-through path is long
+    nextra = 40 if quick else 400
+    rnd_extra = random.Random(run.seed * 7919 + (1000007 if kind == 'lv' else 2000003))
     nested_stats = {}
     for it in range(len(corpus) + nprog + nextra):
         vec_rnd = rnd
@@ -2225,8 +2338,12 @@ def check_property(run, kind, generate):
         elif it < len(corpus) + nprog:
             sname, src = program_stream(rnd, it)
             cdv = None
-        else:
+        elif kind == 'lv':
             sname, src = 'sibling-writer', gen_sibling_writer_function(rnd_extra)
+            cdv = None
+            vec_rnd = rnd_extra
+        else:
+            sname, src = 'deep-raise', gen_deep_raise_function(rnd_extra)
             cdv = None
             vec_rnd = rnd_extra
         if src in seen_src:
